@@ -9,6 +9,7 @@ import YV.Drv.S
 import YV.Drv.V
 import YV.Drv.Cm
 import YV.Drv.Md
+import YV.Drv.Xp
 open Lean YV.Drv
 
 def dispatch (j : Json) : List (String × Json) :=
@@ -26,6 +27,7 @@ def dispatch (j : Json) : List (String × Json) :=
   | "ycfg" => Cm.handleCfg j
   | "yuses" => Cm.handleUses j
   | "ymods" => Md.handle j
+  | "yxp" => Xp.handle j
   | "yvals" => V.handle j
   | k => [("m", Json.str ("unknown-kind:" ++ k)), ("s", Json.str "unknown-kind")]
 
